@@ -98,7 +98,7 @@ func genC18(tier string) []Scenario {
 	}
 	// a flow that has already run and is then given (or re-pointed to) a connection on the default
 	// action: the next run follows it
-	for _, form := range []string{"connection added after a run", "connection re-pointed after a run"} {
+	for _, form := range []string{"connection added after a run", "connection re-pointed after a run", "connection added after three runs", "default edge next to nine named ones"} {
 		form := form
 		body := func() {
 			store := flyt.NewSharedStore()
@@ -114,10 +114,22 @@ func genC18(tier string) []Scenario {
 			if form == "connection re-pointed after a run" {
 				f.Connect(a, flyt.DefaultAction, w1)
 			}
-			if err := f.Run(ctxBackground(), store); err != nil {
-				core.Problem("%s: first run failed: %v", form, err)
+			before := 1
+			if form == "connection added after three runs" {
+				f.Connect(a, flyt.DefaultAction, w1)
+				before = 3
+			}
+			for r := 0; r < before; r++ {
+				if err := f.Run(ctxBackground(), store); err != nil {
+					core.Problem("%s: run %d failed: %v", form, r+1, err)
+				}
 			}
 			f.Connect(a, flyt.DefaultAction, w2)
+			if form == "default edge next to nine named ones" {
+				for i := 1; i <= 9; i++ {
+					f.Connect(a, flyt.Action(fmt.Sprintf("named-%d", i)), w1)
+				}
+			}
 			ran = nil
 			if err := f.Run(ctxBackground(), store); err != nil {
 				core.Problem("%s: second run failed: %v", form, err)
